@@ -46,6 +46,7 @@ type Entry struct {
 	DeferFail bool // DeferCmd: the deferred command exits 1 after its D line
 	Ref       *Ref // Call / DeferCall
 	Loop      []string
+	LoopVar   bool // render Loop as for: {var: LV<k>} over a task variable holding the items (split on spaces, or on ',' with split:)
 	// Matrix, if non-nil, replaces Loop: ordered keys with their values; the loop body
 	// receives "{{.ITEM.K1}}-{{.ITEM.K2}}" as its item text.
 	Matrix    []MatrixRow
@@ -53,6 +54,7 @@ type Entry struct {
 	// MatrixRefX: the referenced list is built from the call variable X ('{{.X}}<value>'), so two calls of
 	// the task with different X must loop over different items
 	MatrixRefX bool
+	loopVarID  int
 }
 
 type MatrixRow struct {
@@ -267,6 +269,12 @@ func forClause(e *Entry) (string, string) {
 		return "for: {matrix: {" + strings.Join(rows, ", ") + "}}", strings.Join(parts, "-")
 	}
 	if e.Loop != nil {
+		if e.LoopVar {
+			if len(e.Loop)%2 == 0 {
+				return fmt.Sprintf("for: {var: LV%d, split: ','}", e.loopVarID), "{{.ITEM}}"
+			}
+			return fmt.Sprintf("for: {var: LV%d}", e.loopVarID), "{{.ITEM}}"
+		}
 		var vs []string
 		for _, v := range e.Loop {
 			vs = append(vs, yq(v))
@@ -411,6 +419,16 @@ func (p *Prog) renderTask(b *strings.Builder, t *Task) {
 				vars = append(vars, "MROW: ["+strings.Join(vs, ", ")+"]")
 				break
 			}
+		}
+	}
+	for k, e := range t.Entries {
+		if e.LoopVar && e.Loop != nil {
+			e.loopVarID = k
+			sep := " "
+			if len(e.Loop)%2 == 0 {
+				sep = ","
+			}
+			vars = append(vars, fmt.Sprintf("LV%d: %s", k, yq(strings.Join(e.Loop, sep))))
 		}
 	}
 	for _, g := range t.Guards {
